@@ -1,5 +1,5 @@
 --------------------------- MODULE MC_EvalProtocol ---------------------------
-(* Named constants for the configurations of EvalProtocol (cfg files cannot hold records). *)
+(* Named configuration sets for EvalProtocol (cfg files cannot hold records). *)
 EXTENDS EvalProtocol
 NanPairsNone == {}
 NoOps == {}
@@ -11,29 +11,56 @@ Cfg(routine, bootR, bootP, cv, nCv, n, kR, kP, byR, byP, bootNc, nM, plR, plP) =
 
 RBys == {"index", "subj", "grp"}
 PBys == {"index", "cond", "cat"}
-\* scalar parameters of the named sets, set in the cfg file
-CONSTANTS PN,      \* number of samples N
-          PNCv,    \* cv repetitions / random test sets
-          PKR, PKP,  \* folds (kfold) or test-set sizes (random)
-          PNM,     \* models
-          PLR, PLP \* shuffle enumeration levels
+Types == {<<TRUE, TRUE>>, <<TRUE, FALSE>>, <<FALSE, TRUE>>}
 
-Fixed == {Cfg("fixed", FALSE, FALSE, "none", 1, 1, 1, 1, "index", "index", TRUE, PNM, 0, 0)}
-\* eval_bootstrap / _rdm / _pattern for every pair of grouping descriptors
-BootBoth == {Cfg("boot", TRUE, TRUE, "none", 1, PN, 1, 1, byR, byP, bnc, PNM, 0, 0) : byR \in RBys, byP \in PBys, bnc \in BOOLEAN}
-BootBothU == {Cfg("boot", TRUE, TRUE, "none", 1, PN, 1, 1, "subj", "cond", bnc, PNM, 0, 0) : bnc \in BOOLEAN}
-BootRdm == {Cfg("boot", TRUE, FALSE, "none", 1, PN, 1, 1, byR, "index", bnc, PNM, 0, 0) : byR \in RBys, bnc \in BOOLEAN}
-BootPat == {Cfg("boot", FALSE, TRUE, "none", 1, PN, 1, 1, byR, byP, bnc, PNM, 0, 0) : byR \in {"index", "grp"}, byP \in PBys, bnc \in BOOLEAN}
-BootAllKinds == BootBoth \cup BootRdm \cup BootPat
-\* crossval on user-made sets
-CrossvalK == {Cfg("crossval", FALSE, FALSE, "kfold", 1, 1, PKR, PKP, byR, byP, TRUE, PNM, PLR, PLP) : byR \in {"index", "grp"}, byP \in {"index", "cat"}}
-CrossvalP == {Cfg("crossval", FALSE, FALSE, "kfoldpat", 1, 1, 1, PKP, "index", byP, TRUE, PNM, PLR, PLP) : byP \in {"index", "cat"}}
-\* bootstrap_crossval, three boot types
-BootCv == {Cfg("bootcv", bt[1], bt[2], "kfold", PNCv, PN, PKR, PKP, byR, byP, TRUE, PNM, PLR, PLP) :
-             bt \in {<<TRUE, TRUE>>, <<TRUE, FALSE>>, <<FALSE, TRUE>>}, byR \in {"index", "grp"}, byP \in {"index", "cat"}}
-BootCvU == {Cfg("bootcv", bt[1], bt[2], "kfold", PNCv, PN, PKR, PKP, "subj", "cond", TRUE, PNM, PLR, PLP) :
-             bt \in {<<TRUE, TRUE>>, <<TRUE, FALSE>>, <<FALSE, TRUE>>}}
-Dual == {Cfg("dual", TRUE, TRUE, "kfold", PNCv, PN, PKR, PKP, byR, byP, TRUE, PNM, PLR, PLP) : byR \in {"index", "grp"}, byP \in {"index"}}
-DualRand == {Cfg("dualrand", bt[1], bt[2], "random", PNCv, PN, PKR, PKP, byR, byP, TRUE, PNM, PLR, PLP) :
-             bt \in {<<TRUE, TRUE>>, <<TRUE, FALSE>>, <<FALSE, TRUE>>}, byR \in {"index", "grp"}, byP \in {"index", "cat"}}
+FixedS(nm) == {Cfg("fixed", FALSE, FALSE, "none", 1, 1, 1, 1, "index", "index", TRUE, nm, 9, 9)}
+\* eval_bootstrap (both axes) / eval_bootstrap_rdm / eval_bootstrap_pattern
+BootS(n, nm, types, rbys, pbys) ==
+  {Cfg("boot", bt[1], bt[2], "none", 1, n, 1, 1, byR, IF bt[2] THEN byP ELSE "index", bnc, nm, 9, 9) :
+     bt \in types, byR \in rbys, byP \in pbys, bnc \in BOOLEAN}
+\* crossval on sets made by sets_k_fold / sets_k_fold_pattern
+CrossvalS(cv, kr, kp, nm, plr, plp, rbys, pbys) ==
+  {Cfg("crossval", FALSE, FALSE, cv, 1, 1, kr, kp, byR, byP, TRUE, nm, plr, plp) : byR \in rbys, byP \in pbys}
+BootCvS(n, ncv, kr, kp, nm, plr, plp, types, rbys, pbys) ==
+  {Cfg("bootcv", bt[1], bt[2], "kfold", ncv, n, kr, kp, byR, byP, TRUE, nm, plr, plp) : bt \in types, byR \in rbys, byP \in pbys}
+DualS(n, ncv, kr, kp, nm, plr, plp, rbys, pbys) ==
+  {Cfg("dual", TRUE, TRUE, "kfold", ncv, n, kr, kp, byR, byP, TRUE, nm, plr, plp) : byR \in rbys, byP \in pbys}
+DualRandS(n, ncv, nr, np, nm, plr, plp, types, rbys, pbys) ==
+  {Cfg("dualrand", bt[1], bt[2], "random", ncv, n, nr, np, byR, byP, TRUE, nm, plr, plp) : bt \in types, byR \in rbys, byP \in pbys}
+
+(* ---- quick tier ---- *)
+\* NR = 3, NC = 4, trimmed draws: every routine, unique and grouping descriptors, N = 2 for the plain bootstraps
+QuickA == FixedS(3)
+          \cup BootS(2, 3, Types, RBys, {"index", "cond"})
+          \cup BootCvS(1, 2, 2, 1, 3, 1, 9, Types, {"subj", "grp"}, {"cond"})
+          \cup DualS(1, 2, 2, 1, 2, 0, 9, {"index", "grp"}, {"index"})
+          \cup DualRandS(1, 2, 1, 0, 3, 1, 9, Types, {"index", "grp"}, {"cond"})
+\* NR = 3, NC = 3, every draw outcome (27 x 27), one sample
+QuickB == BootS(1, 3, {<<TRUE, TRUE>>}, {"subj"}, {"cond"})
+\* NR = 3, NC = 6, trimmed draws: condition groups ('cat': 3 groups of 2), folds over conditions
+QuickC == BootS(2, 3, {<<TRUE, TRUE>>, <<FALSE, TRUE>>}, {"grp"}, {"cat"})
+          \cup BootCvS(1, 1, 1, 2, 3, 9, 1, {<<TRUE, TRUE>>, <<FALSE, TRUE>>}, {"index"}, {"index", "cat"})
+          \cup CrossvalS("kfold", 2, 2, 3, 1, 0, {"index", "grp"}, {"index"})
+          \cup CrossvalS("kfoldpat", 1, 2, 3, 9, 1, {"index"}, {"index", "cat"})
+          \cup DualRandS(1, 2, 1, 3, 2, 0, 0, {<<TRUE, TRUE>>}, {"index"}, {"index"})
+
+(* ---- thorough tier ---- *)
+\* NR = 3, NC = 4, every draw outcome (27 x 256), one sample
+ThorA == BootS(1, 3, Types, {"subj", "grp"}, {"cond"})
+\* NR = 3, NC = 4, every draw outcome, cross-validation over RDM groups, two repetitions
+ThorB == BootCvS(1, 2, 2, 1, 2, 1, 9, {<<TRUE, TRUE>>}, {"subj"}, {"cond"})
+\* NR = 3, NC = 4, trimmed draws, two samples of everything
+ThorC == BootS(2, 4, Types, RBys, PBys)
+         \cup BootCvS(2, 2, 2, 1, 3, 0, 9, Types, {"subj", "grp"}, {"cond"})
+         \cup DualS(2, 1, 2, 1, 2, 0, 9, {"index", "grp"}, {"index"})
+         \cup DualS(1, 2, 2, 1, 2, 1, 9, {"index"}, {"index"})
+         \cup DualRandS(2, 2, 1, 0, 3, 1, 9, Types, {"index", "grp"}, {"cond"})
+\* NR = 4, NC = 6, trimmed draws
+ThorD == BootS(2, 3, Types, {"grp"}, {"cat", "index"})
+         \cup BootCvS(1, 2, 2, 2, 3, 1, 1, Types, {"index", "grp"}, {"index"})
+         \cup BootCvS(2, 1, 1, 2, 3, 9, 1, {<<TRUE, TRUE>>, <<FALSE, TRUE>>}, {"index"}, {"index", "cat"})
+         \cup CrossvalS("kfold", 2, 2, 3, 2, 1, {"index", "grp"}, {"index"})
+         \cup CrossvalS("kfoldpat", 1, 2, 3, 9, 2, {"index"}, {"index", "cat"})
+         \cup DualRandS(1, 2, 1, 3, 2, 1, 1, Types, {"index", "grp"}, {"index"})
+         \cup DualS(1, 1, 2, 2, 2, 0, 0, {"index"}, {"index"})
 =============================================================================
